@@ -54,6 +54,8 @@ void harness::run_case(const eng::Raw& raw, eng::Ctx& ctx)
 	lim.maxStates = ctx.tier() ? 5 : 4;
 	lim.arity3 = true;
 	gen::TACase c = gen::decode_ta(raw, lim, false);
+	const std::string largeTag = gen::enlarge(c, false);
+	if (!largeTag.empty()) ctx.tag(largeTag);
 	// flavour 1,2: split every state in two copies (creates simulation-equivalent states)
 	const uint32_t flavour = c.header[0] % 4;
 	if (flavour >= 1) {
@@ -77,7 +79,7 @@ void harness::run_case(const eng::Raw& raw, eng::Ctx& ctx)
 		c.order = gen::shuffled(c.A.rules, c.header[4]);
 	}
 	ctx.describe("flavour " + std::to_string(flavour) + "\n" + gen::describe_ta(c));
-	ctx.small_case(true);
+	ctx.small_case(largeTag.empty());
 
 	const ref::TA V = tc::lib_view(c.A, c.num);
 	const std::set<int> st = V.states();
